@@ -1,4 +1,6 @@
 import ScadVerif.Driver.TreeF
+import ScadVerif.Spec.OpenScadBind
+import ScadVerif.Spec.ReadDouble
 import ScadVerif.Gen.MacroArms
 import ScadVerif.Spec.MacroMeaning
 import ScadVerif.Model.Dim3
@@ -12,6 +14,7 @@ def argVal (kind : String) (i : Nat) : Option (DVal Float) :=
   | "u" => some (.nat (10 + i))
   | "b" => some (.bool (i % 2 == 0))
   | "s" => some (.str (("s" ++ toString i).toList))
+  | "x" => some (.str (("#a" ++ toString i ++ "b1c2").toList))
   | "kh" => some (.enm c!"right")
   | "kv" => some (.enm c!"top")
   | "kd" => some (.enm c!"ttb")
@@ -43,7 +46,9 @@ def hArm : Handler := fun args impl => do
     let model : Res := [
       ("node", match m with | some (t, _) => oTree t | none => ["PANIC"]),
       ("counts", oList (fun n => [oU n]) counts),
-      ("child_counts", oList (fun n => [oU n]) (if a.hasChildren then List.replicate nc 1 else []))]
+      ("child_counts", oList (fun n => [oU n]) (if a.hasChildren then List.replicate nc 1 else [])),
+      -- the text is judged by the decode oracle below (the Float model has no `Display`)
+      ("text", (impl.find "text").getD [])]
     let mut fails : List String := []
     -- every argument expression evaluated exactly once
     let c ← impl.parse "counts" (listOf nat)
@@ -66,6 +71,17 @@ def hArm : Handler := fun args impl => do
       | none => fails := fails ++ [s!"no_meaning_defined_for_this_form:{macroName}!"]
       | some w =>
         if impl.find "node" ≠ some (oTree w) then fails := fails ++ [s!"node_is_not_what_the_openscad_call_means:{macroName}!:arm={k}"]
+        -- … and through emission: the text the crate prints for the node, parsed and bound by OpenSCAD's
+        -- rules, denotes the same node
+        let text ← impl.parse "text" str
+        match Spec.parseProgram text.toList with
+        | some [st] =>
+          match Spec.decodeStmt FNum.read FNum.zero st with
+          | some t' =>
+            if oTree (Scad.map FNum.val t') ≠ oTree w then
+              fails := fails ++ [s!"emitted_call_means_a_different_node:{macroName}!:arm={k}"]
+          | none => fails := fails ++ [s!"emitted_call_does_not_bind:{macroName}!:arm={k}"]
+        | _ => fails := fails ++ [s!"emitted_text_is_not_one_statement:{macroName}!:arm={k}"]
     pure (model, fails)
 
 def hAddSub : Handler := fun args impl => do
